@@ -363,6 +363,22 @@ void QXmpp::Private::writeEmptyElement(QXmlStreamWriter *writer, QStringView nam
     writer->writeEndElement();
 }
 
+void QXmpp::Private::writeDefaultNamespaceEscaped(QXmlStreamWriter *writer, const QString &xmlns)
+{
+    // QXmlStreamWriter does not escape namespace URIs: a URI containing a quote or markup
+    // characters (legal in a parsed document as &quot; &lt; ...) would otherwise end the
+    // attribute and inject markup into the output.
+    static const bool writerEscapes = [] {
+        QString out;
+        QXmlStreamWriter w(&out);
+        w.writeStartElement(u"a"_s);
+        w.writeDefaultNamespace(u"\""_s);
+        w.writeEndElement();
+        return out.contains(u"&quot;");
+    }();
+    writer->writeDefaultNamespace(writerEscapes ? xmlns : xmlns.toHtmlEscaped());
+}
+
 std::optional<QByteArray> QXmpp::Private::parseBase64(const QString &text)
 {
     if (auto result = QByteArray::fromBase64Encoding(text.toUtf8())) {
